@@ -158,6 +158,7 @@ func genCase(t *rapid.T) Case {
 	}
 	linkRows(t, &c)
 	c.NoTx = rapid.IntRange(0, 2).Draw(t, "notx") == 0
+	c.ViaHCL = rapid.IntRange(0, 2).Draw(t, "viahcl") == 0
 	c.B = c.A.Clone()
 	for n := rapid.IntRange(1, 4).Draw(t, "nedits"); n > 0; n-- {
 		if k := model.Edit(t, &c.B, o, protect); k != "" {
@@ -287,7 +288,31 @@ func linked(c Case) bool {
 func TestCheck(t *testing.T) {
 	col := ev.New("C05", "exploration", rule)
 	defer col.Finish()
-	ev.Rapid(t, col, "engine-data", col.N(4000, 600000), genCase, mkCheck(col), known)
+	// a nullable column with NULLs becomes NOT NULL: the NULLs take the column's default - for every shape of default x
+	// a few column types x desired state as an inspected database and as an HCL document (where string defaults arrive unquoted)
+	check := mkCheck(col)
+	strs := []string{"'x'", "''", "'it''s'", "'007'", "'1.50'", "'+5'", "'0x1F'", "'1e3'", "' 12'", "'true'", "'NULL'", `"plain text"`, "CURRENT_TIMESTAMP", "(lower('A'))"}
+	grid := map[string][]string{
+		"text": strs, "varchar(255)": strs, "character(20)": strs, "json": strs, "uuid": strs, "datetime": strs,
+		"blob": {"x'0A'", "'b'", "'007'"}, "integer": {"7", "-1", "0"}, "real": {"7", "1.5"}, "numeric(10,2)": {"7", "1.5"}, "bool": {"TRUE", "false", "1"},
+	}
+	for _, typ := range []string{"text", "varchar(255)", "character(20)", "json", "uuid", "datetime", "blob", "integer", "real", "numeric(10,2)", "bool"} {
+		for _, d := range grid[typ] {
+			for _, via := range []bool{false, true} {
+				a := model.Schema{Tables: []model.Table{{Name: "t1", Cols: []model.Column{{Name: "k", Type: "integer", NotNull: true}, {Name: "c", Type: typ, Default: d}}}}}
+				c := Case{A: a, B: a.Clone(), ViaHCL: via, Edits: []string{"null-to-notnull-with-default"},
+					Rows: map[string][]Row{"t1": {{"k": "1"}, {"k": "2", "c": "NULL"}, {"k": "3", "c": "'kept'"}}}}
+				if typ != "text" && !strings.HasPrefix(typ, "var") && !strings.HasPrefix(typ, "char") {
+					c.Rows["t1"][2]["c"] = "5"
+				}
+				c.B.Tables[0].Cols[1].NotNull = true
+				if !ev.Each(col, "null-becomes-default", c, check, known) {
+					return
+				}
+			}
+		}
+	}
+	ev.Rapid(t, col, "engine-data", col.N(4000, 600000), genCase, check, known)
 }
 
 func TestReplay(t *testing.T) {
